@@ -352,8 +352,11 @@ class BodyIndex:
                 roots = self.place_roots_value(a['place'], frozenset())
                 if not roots:
                     continue
+                oargs = [x for j, x in enumerate(t['args']) if j != ai]
+                if decl == 'std::vec::Vec::<T, A>::append' and ai == 1:
+                    oargs = []          # `other` is drained, it receives nothing from `self`
                 evs.append({'bb': b['i'], 'idx': TERM_IDX, 'kind': 'call', 'roots': roots, 'callee': callee_name(t),
-                            'decl': decl, 'args': [x for j, x in enumerate(t['args']) if j != ai], 'mutarg': ai,
+                            'decl': decl, 'args': oargs, 'mutarg': ai,
                             'node': t, 'line': t['span']['l0']})
         self._events = evs
         return evs
@@ -485,7 +488,8 @@ class Engine:
             return self._with_events(body, bb, idx, l, base, depth)
         ix = self.bx(body)
         wd = ix.whole_defs(l)
-        multi = len(wd) > 1
+        # the value is program-point dependent when the local has several definitions or is mutated in place
+        multi = len(wd) > 1 or bool(ix.events_on(('L', l)))
         mkey = (body.key, l, bb if multi else -1, idx if multi else -1)
         hit = self._memo.get(mkey)
         if hit is not None:
@@ -535,10 +539,25 @@ class Engine:
             return base
         cfg = ix.cfg
         rel = []
+        # a whole re-definition of the local kills earlier events (e.g. `let mut label = [..]` at the top of a loop body)
+        defs = [(d[0], d[1]) for d in ix.whole_defs(l)] if l > body.argc else []
+        multi = len(defs) > 1 or any(cfg.loop_of.get(db) for db, _ in defs)
         for e in evs:
             ebb, eidx = e['bb'], e['idx']
-            if (ebb == bb and eidx < idx) or cfg.reaches(ebb, bb):
-                rel.append(e)
+            if ebb == bb and eidx < idx:
+                if not any(db == bb and eidx < di < idx for db, di in defs):
+                    rel.append(e)
+                continue
+            if not cfg.reaches(ebb, bb):
+                continue
+            if multi:
+                # killed inside the event's own block or the reading block?
+                if any(db == ebb and di > eidx for db, di in defs) or any(db == bb and di < idx for db, di in defs):
+                    continue
+                avoid = frozenset(db for db, _ in defs if db != ebb and db != bb)
+                if avoid and not cfg.reaches(ebb, bb, avoid):
+                    continue
+            rel.append(e)
         if not rel:
             return base
         ekey = ('ev', body.key, l, bb, idx)
